@@ -121,7 +121,7 @@ impl Prop for C18 {
                 let width = g.usize_in(1, 120);
                 let cols = vec![crate::vals::ColSpec::simple("a", T_VAR_STRING, 0), crate::vals::ColSpec::simple("b", T_LONG, 0)];
                 let rows: Vec<RowProg> = (0..nrows)
-                    .map(|r| RowProg { cells: vec![crate::vals::Val::plain(crate::vals::Base::Slice(vec![b'a' + (r % 26) as u8; width])), crate::vals::Val::plain(crate::vals::Base::I32(r as i32))], form: RowForm::WriteRow })
+                    .map(|r| RowProg { cells: vec![crate::vals::Val::plain(crate::vals::Base::Slice(vec![b'a' + (r % 26) as u8; width])), crate::vals::Val::plain(crate::vals::Base::I32(r as i32))], form: RowForm::WriteRow, offers: vec![] })
                     .collect();
                 conv.actions[ai] = Action::Result(Program { steps: vec![Step::Set { cols, rows, end: SetEnd::Finish }] });
             }
